@@ -84,6 +84,15 @@ def run(ctx):
             shape[k] = shape.get(k, 0) + v
         cases.append(("rnd-" + vlib.sha(src), "ms", src, ml, "random"))
 
+    nrich = ctx.n(60, 1500)
+    dhist = {}
+    for i in range(nrich):
+        g = G.GoRich(ctx.rng)
+        src = g.program()
+        for k, v in g.hist.items():
+            dhist[k] = dhist.get(k, 0) + v
+        cases.append(("rich-" + vlib.sha(src), "go", src, None, "gorich"))
+
     hk = {"ms": "go", "msx": "xgo", "go": "go", "xgo": "xgo"}
     inp = "".join("%s\t%s\t%s\n" % (hk[k], n, s.encode().hex()) for n, k, s, _, _ in cases)
     rc1, out1 = ctx.run([impl, "-repo", vlib.REPO, "-impcache", impcache], input=inp, timeout=900)
@@ -147,13 +156,17 @@ def run(ctx):
               samples=[{"name": cases[i][0], "source": cases[i][2][:600], "impl": lines[i][:600]}
                        for i in (0, len(cases) - 1, len(cases) - 2)],
               rule="%d deterministic MiniScope programs (one per declaration form, incl. the forms that violate) + %d handwritten "
-                   "Go texts + %d XGo corpus files (%s) + %d seeded random Go-compatible MiniScope programs; non-trivial = "
+                   "Go texts + %d XGo corpus files (%s) + %d seeded random Go-compatible MiniScope programs + %d seeded random Go-compatible "
+                   "programs over every declaring construct (GoRich: fields, embedded fields T/*T/pkg.T/*pkg.T in type decls, literal and "
+                   "parameter types, methods and receivers, params/results, interface methods, iota groups, type switch variables, "
+                   "imports; oracle + go/types comparison only; generic types do not parse as XGo and are not generated); non-trivial = "
                    "distinct source that type-checks and has >= 8 identifier occurrences. NOT generated at random (they fail on "
                    "the unchanged tree, explored by the deterministic set): multi-name var/const/:= specs, range/for-in "
                    "variables, blank identifiers, re-declared names in :=, local type declarations, typed `var x T = ..x..` "
                    "self reference, labels, functions/variables first referenced from an earlier body"
-                   % (len(G.deterministic()), len(G.GO_TEXTS), ncorp, ",".join(CORPUS_GLOBS), nrand),
+                   % (len(G.deterministic()), len(G.GO_TEXTS), ncorp, ",".join(CORPUS_GLOBS), nrand, nrich),
               origin_histogram=hist, construct_histogram=dict(sorted(shape.items())),
+              declaring_construct_histogram=dict(sorted(dhist.items())),
               model_vs_impl_compared=len(impl_maps), generated_rejected=len(skipped),
               programs_without_any_failure=nprog_ok, oracle_failing_items=nfail)
     ctx.assume("object positions/kinds of MiniScope follow cl's call sites as read (loadVars, loadConsts, compileAssignStmt, "
